@@ -125,6 +125,10 @@ def judge(spec, N, t):
 
 
 def run(ctx):
+    from .. import pipeline
+
+    # wiring: the run's stored columns are this stage applied to the run's stored columns (see nssmc/pipeline.py)
+    pipeline.run_in(ctx, ['spectrum'], ('A', 'B', 'C'))
     tier = ctx.tier
     Ns = [0, 1, 2, 3, 8192, 8193]
     idx = [0.0, 0.5, 1 - 1e-6, 1.0, 1 + 1e-6, 1.5, 2.0, 2.5, 3.0, 4.0]
@@ -266,6 +270,10 @@ def judge_live_history(seq):
 
 
 def replay(case):
+    if isinstance(case, dict) and case.get("kind") == "pipeline":
+        from .. import pipeline
+
+        return pipeline.replay(case)
     if case.get("live"):
         return judge_live_history(tuple(case["live"]))
     if case.get("hist"):
